@@ -192,9 +192,12 @@ class Union():
         labels = np.argmax(p, axis=1)
         # If one of the clusters has less than n_points_min members, re-assign
         # the most likely members from the larger cluster to the smaller one.
-        if not np.all(np.bincount(labels) >= self.n_points_min):
-            label = np.argmin(np.bincount(labels))
-            labels[np.argsort(-p[:, label])[:self.n_points_min]] = label
+        n_labels = np.bincount(labels, minlength=2)
+        if not np.all(n_labels >= self.n_points_min):
+            label = np.argmin(n_labels)
+            other = np.flatnonzero(labels != label)
+            labels[other[np.argsort(-p[other, label])[
+                :self.n_points_min - n_labels[label]]]] = label
 
         new_bounds = []
         points = self.points_bounds[index]
